@@ -69,6 +69,12 @@ func (v *VUrl) validate(value string) *VUrl {
 		v.errBuf.WriteString(GetJoinFieldErr("", "", "url unescape is failed, err: "+err.Error()))
 		return v
 	}
+	// 注: url 里有 "?" 时需先按 "&", "=" 分割再对 key, val 分别解码, 否则 val 中被编码的 "&", "=" 会被当成分割符;
+	// 没有 "?" 时可能是整个 url 被编码, 用解码后的内容进行分割
+	isDecodePart := strings.Contains(value, "?")
+	if isDecodePart {
+		decUrl = value
+	}
 	urlQuery := ""
 	queryIndex := strings.Index(decUrl, "?")
 	if queryIndex != -1 {
@@ -91,6 +97,10 @@ func (v *VUrl) validate(value string) *VUrl {
 		}
 		if l > 1 {
 			val = key2val[1]
+		}
+		if isDecodePart {
+			key, _ = url.QueryUnescape(key)
+			val, _ = url.QueryUnescape(val)
 		}
 
 		exists[key] = struct{}{}
